@@ -28,15 +28,17 @@ Theorem C20_max : forall (A : Type) (ltb : A -> A -> bool),
 Proof. exact (fun A ltb asym nt => conj (gmax_empty ltb) (gmax_correct ltb asym nt)). Qed.
 Print Assumptions C20_max.
 
-(* ... for every integer type: an argument that is <= (>=) all the others *)
-Theorem C20_min_int : forall t v, v <> [] ->
-  exists r, imin t v = Ok r /\ In r v /\ forall x, In x v -> r <= x.
-Proof. exact imin_correct. Qed.
+(* ... for every integer type t and arguments of type t: a value of type t, one of the arguments, <= (>=) all of
+   them.  (Values are their own mathematical value, so the order of every type is the order of Z; the type only
+   fixes the range.) *)
+Theorem C20_min_int : forall t v, v <> [] -> Forall (in_range t) v ->
+  exists r, imin t v = Ok r /\ In r v /\ in_range t r /\ forall x, In x v -> r <= x.
+Proof. exact imin_typed. Qed.
 Print Assumptions C20_min_int.
 
-Theorem C20_max_int : forall t v, v <> [] ->
-  exists r, imax t v = Ok r /\ In r v /\ forall x, In x v -> x <= r.
-Proof. exact imax_correct. Qed.
+Theorem C20_max_int : forall t v, v <> [] -> Forall (in_range t) v ->
+  exists r, imax t v = Ok r /\ In r v /\ in_range t r /\ forall x, In x v -> x <= r.
+Proof. exact imax_typed. Qed.
 Print Assumptions C20_max_int.
 
 (* Clamp with lo <= hi (not hi < lo), any strict weak order *)
@@ -50,14 +52,15 @@ Theorem C20_clamp : forall (A : Type) (ltb : A -> A -> bool),
 Proof. exact @clamp_correct. Qed.
 Print Assumptions C20_clamp.
 
-Theorem C20_clamp_int : forall t v lo hi, lo <= hi ->
+Theorem C20_clamp_int : forall t v lo hi, in_range t v -> in_range t lo -> in_range t hi -> lo <= hi ->
   iclamp t v lo hi = (if v <? lo then lo else if hi <? v then hi else v) /\
   iclamp t v lo hi = Z.max lo (Z.min v hi) /\
   (lo <= v <= hi -> iclamp t v lo hi = v) /\
   (v < lo -> iclamp t v lo hi = lo) /\
   (hi < v -> iclamp t v lo hi = hi) /\
-  lo <= iclamp t v lo hi <= hi.
-Proof. exact iclamp_correct. Qed.
+  lo <= iclamp t v lo hi <= hi /\
+  in_range t (iclamp t v lo hi).
+Proof. exact iclamp_typed. Qed.
 Print Assumptions C20_clamp_int.
 
 (* Clamp01 is Clamp to [0,1] *)
@@ -66,10 +69,11 @@ Theorem C20_clamp01 : forall (A : Type) (ltb : A -> A -> bool) (zero one v : A),
 Proof. exact @clamp01_is_clamp. Qed.
 Print Assumptions C20_clamp01.
 
-Theorem C20_clamp01_int : forall t v,
+Theorem C20_clamp01_int : forall t v, in_range t v ->
   iclamp01 t v = iclamp t v 0 1 /\
-  iclamp01 t v = (if v <? 0 then 0 else if 1 <? v then 1 else v).
-Proof. exact iclamp01_correct. Qed.
+  iclamp01 t v = (if v <? 0 then 0 else if 1 <? v then 1 else v) /\
+  in_range t (iclamp01 t v).
+Proof. exact iclamp01_typed. Qed.
 Print Assumptions C20_clamp01_int.
 
 (* Sum / Product: the wrapped mathematical sum / product; 0 / 1 for no
@@ -100,11 +104,31 @@ Theorem C20_abs : forall t v, in_range t v ->
 Proof. exact iabs_correct. Qed.
 Print Assumptions C20_abs.
 
+(* Abs over any ordered carrier with a negation that makes negative values non-negative (floats without NaN):
+   the negation of a negative value, the value itself otherwise, never negative.  Nothing is said about the sign
+   of a zero (Abs(-0.0) is -0.0 in the code: -0.0 < 0 is false). *)
+Theorem C20_abs_ordered : forall (A : Type) (ltb : A -> A -> bool) (neg : A -> A) (zero : A),
+  (forall v, ltb v zero = true -> ltb (neg v) zero = false) ->
+  forall v,
+    (ltb v zero = true -> gabs ltb neg zero v = neg v) /\
+    (ltb v zero = false -> gabs ltb neg zero v = v) /\
+    ltb (gabs ltb neg zero v) zero = false.
+Proof. exact @gabs_correct. Qed.
+Print Assumptions C20_abs_ordered.
+
+(* ... and on the order preserving, negation-commuting code of the non-NaN floats in Z (the one the harness
+   uses; both zeros have code 0) it is the magnitude; Z.opp satisfies the hypothesis above. *)
+Theorem C20_abs_code : forall v,
+  gabs Z.ltb Z.opp 0 v = Z.abs v /\ (forall v', (v' <? 0) = true -> (- v' <? 0) = false).
+Proof. exact gabs_code. Qed.
+Print Assumptions C20_abs_code.
+
 (* Compare and Less agree with the built-in order *)
-Theorem C20_compare_less : forall t a b,
+Theorem C20_compare_less : forall t a b, in_range t a -> in_range t b ->
   icompare t a b = match a ?= b with Lt => -1 | Eq => 0 | Gt => 1 end /\
-  (iless t a b = true <-> a < b).
-Proof. exact icompare_less_correct. Qed.
+  (iless t a b = true <-> a < b) /\
+  (icompare t a b = 0 <-> a = b) /\ (icompare t a b = -1 <-> a < b) /\ (icompare t a b = 1 <-> b < a).
+Proof. exact icompare_typed. Qed.
 Print Assumptions C20_compare_less.
 
 Theorem C20_compare_less_ordered : forall (A : Type) (ltb : A -> A -> bool) (a b : A),
@@ -168,6 +192,16 @@ Theorem C20_iface : forall (P : Type),
 Proof. exact @iface_correct. Qed.
 Print Assumptions C20_iface.
 
+(* TernCast[T] for an interface type T (any, error): every non-nil value whose dynamic type implements T is
+   returned unchanged, anything else (the nil interface included) panics, and ifFalse is returned when cond is false *)
+Theorem C20_terncast_iface : forall (P : Type) (impl : Z -> bool),
+  (forall value (ifFalse : iface P), tern_cast_iface impl false value ifFalse = Ok ifFalse) /\
+  (forall dyn (p : P) ifFalse, impl dyn = true -> tern_cast_iface impl true (Some (dyn, p)) ifFalse = Ok (Some (dyn, p))) /\
+  (forall dyn (p : P) ifFalse, impl dyn = false -> tern_cast_iface impl true (Some (dyn, p)) ifFalse = Panic OtherPanic) /\
+  (forall ifFalse : iface P, tern_cast_iface impl true None ifFalse = Panic OtherPanic).
+Proof. exact @tern_cast_iface_correct. Qed.
+Print Assumptions C20_terncast_iface.
+
 (* Non-vacuity: the minimum of int8 and of int64, wrap-around, first minimum. *)
 Example C20_example :
   in_range (ITy true W8) (-128) /\
@@ -180,5 +214,17 @@ Example C20_example :
   sum (ITy true W8) [100; 100; -50] = -106 /\ product (ITy false W8) [16; 17] = 16 /\
   iabs (ITy true W16) (-32768) = -32768 /\ iabs (ITy true W16) (-32767) = 32767 /\
   imin (ITy true W8) [3; -5; 7; -5] = Ok (-5) /\ imax (ITy false W8) [] = Panic Explicit /\
-  iclamp (ITy true W8) 9 (-3) 5 = 5 /\ coal Z.eqb 0 [0; 0; 4; 5] = 4.
-Proof. vm_compute. repeat split; intro; discriminate. Qed.
+  iclamp (ITy true W8) 9 (-3) 5 = 5 /\ coal Z.eqb 0 [0; 0; 4; 5] = 4 /\
+  Forall (in_range (ITy true W8)) [3; -5; 7; -5] /\ in_range (ITy true W8) 9 /\
+  gabs Z.ltb Z.opp 0 (-4607182418800017408) = 4607182418800017408 /\
+  tern_cast_iface (fun d => d =? 7) true (Some (7, 3)) None = Ok (Some (7, 3)) /\
+  tern_cast_iface (fun d => d =? 7) true (Some (1, 3)) None = Panic OtherPanic /\
+  tern_cast_iface (fun _ => true) true (None : iface Z) None = Panic OtherPanic /\
+  (* IsZero[any](any(0)) is false: an interface holding 0 is not the nil interface, and int has no method *)
+  is_zero (option_eqb (prod_eqb Z.eqb Z.eqb)) None None (Some (1, 0)) = false.
+Proof.
+  repeat match goal with |- _ /\ _ => split end;
+    try (vm_compute; reflexivity);
+    try (apply in_rangeb_spec; vm_compute; reflexivity);
+    try (repeat constructor; apply in_rangeb_spec; vm_compute; reflexivity).
+Qed.
